@@ -255,7 +255,7 @@ CLAIMED = {
         note='Trusted: Coq kernel, translator, harness (virtual time), asyncio semantics of wait_for/cancel/close. PARTIAL: the bounded-time part of '
              'stop() is checked by the oracle on the played scenarios (bound 4*socket_timeout + max back-off + enquire_link_interval + 5 s), not '
              'proved - it depends on asyncio scheduling of three tasks. Proved for the code after fixes 480fe1d and 600b0b5 (connection left open '
-             'when stop() came before the session was bound). No axioms.',
+             'when stop() came before the session was bound). Scenarios of rounds 7-9: stop() on a connection the SMSC has already closed (9f650fd), stop() whose unbind is held up in the sending hook while the session ends underneath it (6756439: bounded return; the unbind itself is not written in that schedule - hooks are assumed to return promptly). No axioms.',
         technique='Coq proof: induction over cycle sequences of a transition system, closed form of the back-off recurrence (nia/lia); trace correspondence of the real session with fault injection on a virtual-time loop',
         design='6 (C07)'),
     'C16': dict(
@@ -269,7 +269,7 @@ CLAIMED = {
              'against the real keeper inside ESME.start() on a virtual-time loop and comparing probe times and drop time to the millisecond; an '
              'oracle states the three sentences of the property on the observed time stamps.',
         note='Trusted: Coq kernel, harness (virtual-time loop: timers fire in time order), asyncio.wait/wait_for semantics. An answer exactly '
-             'socket_timeout after the probe is outside the statement (model and code both treat it as too late). No axioms.',
+             'socket_timeout after the probe is outside the statement (model and code both treat it as too late). Scenarios of round 9: a peer that stops reading (write back-pressure) must be dropped and the next connection must work (7876ebb: the detached probe task is cancelled with the keeper); a hook that never returns must not keep start() from replacing a lost session (aadaefa/0d0edab); the ESME's own outbound traffic is no sign of life. No axioms.',
         technique='Coq proof: step lemmas and mutual induction over a timed transition system; timed trace correspondence of the real task on a virtual-time loop',
         design='6 (C16)'),
     'C15': dict(
